@@ -298,12 +298,16 @@ func NewBoundedBuilder(max int) Builder {
 }
 
 // UUID returns a global unique identifier for the given literal. It is
-// implemented as the SHA1 UUID of the literal value.
+// implemented as the SHA1 UUID of the literal type and value.
 func (l *Literal) UUID() uuid.UUID {
 	buffer := bufPool.Get().(*bytes.Buffer)
 	buffer.Reset()
 	defer bufPool.Put(buffer)
 
+	// Literals of different types are different values even if their encoded
+	// values coincide, e.g. "true"^^type:bool and "true"^^type:text.
+	buffer.WriteString(l.t.String())
+	buffer.WriteByte(':')
 	switch v := l.v.(type) {
 	case bool:
 		if v {
